@@ -495,12 +495,12 @@ func TestC13(t *testing.T) {
 	var hin []any
 	for i, l := range lines {
 		kind, _ := inputs[i].(map[string]any)["kind"].(string)
-		if !strings.HasPrefix(l, "c13e ") || !(strings.HasPrefix(kind, "client-") || kind == "server-notify" || kind == "server-callback") {
+		if !strings.HasPrefix(l, "c13e ") || !(strings.HasPrefix(kind, "client-") || kind == "server-notify" || kind == "server-callback" || kind == "server-result") {
 			continue
 		}
 		f := strings.Fields(l)[2:]
 		for k := 0; k+7 <= len(f); k += 7 {
-			for _, part := range []string{f[k], f[k+2]} {
+			for _, part := range []string{f[k], f[k+2], f[k+3]} { // id, params, result
 				if part != "-" {
 					hl = append(hl, "c13b "+part)
 					hin = append(hin, map[string]any{"kind": kind, "part": part})
